@@ -293,13 +293,10 @@ oer_put_tag(ber_tlv_tag_t tag, asn_app_consume_bytes_f *cb, void *app_key) {
         uint8_t buf[1 + 2 * sizeof(tval)];
         uint8_t *b = &buf[sizeof(buf)-1]; /* Last addressable */
         size_t encoded;
-        for(; ; tval >>= 7) {
-            if(tval >> 7) {
-                *b-- = 0x80 | (tval & 0x7f);
-            } else {
-                *b-- = tval & 0x7f;
-                break;
-            }
+        /* X.696 #8.7.2.3: bit 8 is set in every octet but the last one. */
+        *b-- = tval & 0x7f;
+        for(tval >>= 7; tval; tval >>= 7) {
+            *b-- = 0x80 | (tval & 0x7f);
         }
         *b = (uint8_t)((tclass << 6) | 0x3F);
         encoded = sizeof(buf) - (b - buf);
